@@ -36,7 +36,7 @@ FORMS = {
     'conv': ('inner(b,grad(u))*v*dx', False),
     'fun': ('f*v*dx', None),
 }
-QUICK_FORMS = {1: ['laplace', 'conv', 'fun'], 2: ['mass', 'conv', 'fun']}
+QUICK_FORMS = {1: ['laplace', 'fun'], 2: ['mass', 'conv']}   # every form once; 4 on-demand assemblers to compile
 ALL_FORMS = {1: ['mass', 'laplace', 'conv', 'fun'], 2: ['mass', 'laplace', 'conv', 'fun']}
 
 
@@ -172,17 +172,10 @@ def gen_space(rng, dim, p, n0, nref, disparity, truncate, bdspecs, maxlevels):
 
 
 def run(ctx):
-    # private module cache of this check, keyed by the source digest (own directory: other checks compile
-    # `u*v*dx` too, the library's cache is not safe against concurrent builds of the same module (C20), and
-    # ctx.xdg_cache() of a concurrently running check on another tree removes foreign `xdg-*` directories)
-    import shutil
-    base = os.path.join(VERIF, '.cache'); os.makedirs(base, exist_ok=True)
-    mine = os.path.join(base, 'c03-' + ctx.repo_digest())
-    for e in os.listdir(base):
-        if e.startswith('c03-') and os.path.join(base, e) != mine and REPO == '/repo':
-            shutil.rmtree(os.path.join(base, e), ignore_errors=True)
-    os.makedirs(mine, exist_ok=True)
-    os.environ['XDG_CACHE_HOME'] = mine
+    # private module cache of this check: a sub-directory of the digest-keyed cache (other checks compile
+    # `u*v*dx` too; keeping the directories apart avoids concurrent builds of the same module)
+    os.environ['XDG_CACHE_HOME'] = os.path.join(ctx.xdg_cache(), 'c03')
+    os.makedirs(os.environ['XDG_CACHE_HOME'], exist_ok=True)
     ctx.build_repo()
     quick = ctx.tier == 'quick'
     forms = QUICK_FORMS if quick else ALL_FORMS
